@@ -49,6 +49,12 @@ pub struct Rich {
     pub bundle_empty: usize,
     pub badge_mint: MintInfo,
     pub spare_mint: MintInfo,
+    /// accounts of the "sibling universe": objects of the same kinds as the victim's whose every authority is the attacker
+    /// (a config of the attacker's own with extension, badge, fee tier, adaptive tier, static and adaptive pool with a reward;
+    /// and, inside the victim's config, a second adaptive fee tier of the same tick spacing whose delegated / pool authority
+    /// is the attacker, with a pool in it)
+    pub sibling: std::collections::BTreeSet<Pubkey>,
+    pub cfg_att: usize,
 }
 
 fn dynamic(spec: &RichSpec, n: u8) -> bool {
@@ -184,7 +190,41 @@ impl Rich {
             let ix = w.ix_update_fees(p);
             w.must("update fees", &ix);
         }
+        // ---- sibling universe (built last: nothing above depends on it)
+        let before: std::collections::BTreeSet<Pubkey> = w.bank.accounts.keys().cloned().collect();
+        let att = w.users[attacker].key;
+        let cfg_att = w.init_config(100);
+        let ix = w.ix_set_collect_protocol_fees_authority(cfg_att, att);
+        w.must("sibling: collect authority", &ix);
+        w.configs[cfg_att].collect_protocol_fees_authority = att;
+        let ix = w.ix_set_reward_emissions_super_authority(cfg_att, att);
+        w.must("sibling: super authority", &ix);
+        w.configs[cfg_att].reward_emissions_super_authority = att;
+        let ix = w.ix_set_fee_authority(cfg_att, att);
+        w.must("sibling: fee authority", &ix);
+        w.configs[cfg_att].fee_authority = att;
+        w.init_config_extension(cfg_att);
+        let ix = w.ix_init_fee_tier(cfg_att, ts, 3000);
+        w.must("sibling: fee tier", &ix);
+        let ix = w.ix_set_config_feature_flag(cfg_att, whirlpool::state::ConfigFeatureFlag::TokenBadge(true));
+        w.must("sibling: feature flag", &ix);
+        let ix = w.ix_init_token_badge(cfg_att, &badge_mint.key);
+        w.must("sibling: token badge", &ix);
+        let ix = w.ix_init_adaptive_fee_tier(cfg_att, af_index, ts, att, att, 3000, &AfConstants::sane(ts));
+        w.must("sibling: adaptive tier", &ix);
+        let p_att = w.init_pool(cfg_att, &mx, &my, ts, price).expect("sibling pool");
+        let pa_att = w.init_pool_adaptive(cfg_att, &mx, &my, af_index, ts, att, price, None).expect("sibling adaptive pool");
+        for p in [p_att, pa_att] {
+            let _ = w.init_reward(p, &r0, false).expect("sibling reward");
+        }
+        // inside the victim's config: a second adaptive tier with the same tick spacing, handed to another party
+        let ix = w.ix_init_adaptive_fee_tier(cfg, af_index + 1, ts, att, att, 3000, &AfConstants::sane(ts));
+        w.must("sibling adaptive tier in the victim's config", &ix);
+        let _ = w.init_pool_adaptive(cfg, &mx, &mz, af_index + 1, ts, att, price, None).expect("pool in the sibling tier");
+        let sibling: std::collections::BTreeSet<Pubkey> = w.bank.accounts.keys().filter(|k| !before.contains(k)).cloned().collect();
         Rich {
+            sibling,
+            cfg_att,
             w,
             spec: spec.clone(),
             cfg,
